@@ -30,6 +30,9 @@ func runC17(c *Ctx) {
 	r17_5(c, "R17.5", w)
 	c.R.Rule("R17.6", "the stat of every non-directory carries its on-disk size: the payload length of a tar entry is Stat.Size (shared with R01.1/R09.3)")
 	statSizeAlways(c, "R17.6")
+	// a link member names another member: inside a sub-root view the link
+	// target carries the sub-root's prefix like the member names do (shared with C09)
+	r09_5(c, "R17.7")
 }
 
 // beforeEveryHeader: every path of lit to any WriteHeader call passes a.
